@@ -74,6 +74,57 @@ def py_descriptor(d):
     return st.PublicKeyCredentialDescriptor(**kw)
 
 
+# ---- argument shapes: the same values as other Python objects ----
+import enum as _enum
+
+
+class OddStr(str):
+    """a str subclass whose str() / repr() are not its value (Markup-like wrappers, lazy translation strings)"""
+    def __str__(self): return "str-of-a-subclass"
+    def __repr__(self): return "repr-of-a-subclass"
+
+
+def _foreign(value):
+    """a member, equal to `value`, of a (str, Enum) class that is NOT the library's (an RP's own enum, a vendored second copy of the structs module)"""
+    cls = _enum.Enum("Foreign_" + "".join(c if c.isalnum() else "_" for c in str(value)), {"MEMBER": value}, type=str)
+    return cls.MEMBER
+
+
+def shaped(kw, shape):
+    """kw: keyword arguments for generate_*_options built by reg_kwargs / auth_kwargs; shape: None | 'plain-ints' | 'odd-strs' | 'enum-named-strs' | 'foreign-enums'"""
+    if not shape:
+        return kw
+    kw = dict(kw)
+    if shape == "plain-ints" and "supported_pub_key_algs" in kw:
+        kw["supported_pub_key_algs"] = [int(x) for x in kw["supported_pub_key_algs"]]
+    if shape in ("odd-strs", "enum-named-strs"):
+        for k in ("rp_id", "rp_name", "user_name", "user_display_name"):
+            if isinstance(kw.get(k), str) and kw[k]:
+                kw[k] = OddStr(kw[k]) if shape == "odd-strs" else _foreign(kw[k])
+    if shape == "foreign-enums":
+        st = S()
+        def conv(v):
+            if isinstance(v, _enum.Enum) and isinstance(v, str):
+                return _foreign(v.value)
+            if isinstance(v, list):
+                return [conv(x) for x in v]
+            return v
+        for k in ("attestation", "user_verification", "hints"):
+            if k in kw:
+                kw[k] = conv(kw[k])
+        sel = kw.get("authenticator_selection")
+        if sel is not None:
+            kw["authenticator_selection"] = st.AuthenticatorSelectionCriteria(authenticator_attachment=conv(sel.authenticator_attachment), resident_key=conv(sel.resident_key),
+                                                                               require_resident_key=sel.require_resident_key, user_verification=conv(sel.user_verification))
+        for k in ("exclude_credentials", "allow_credentials"):
+            if kw.get(k):
+                kw[k] = [st.PublicKeyCredentialDescriptor(id=d.id, transports=conv(d.transports)) if d.transports is not None else d for d in kw[k]]
+    return kw
+
+
+SHAPES = [None, "plain-ints", "odd-strs", "enum-named-strs", "foreign-enums"]
+
+
 def py_auth_sel(s):
     st = S()
     kw = {}
